@@ -56,6 +56,7 @@ class Check(AddCheck):
         n_max, max_src = (3, 2) if tier == 'quick' else (5, 3)
         yield from gens.merge_cases_story(n_max=n_max, max_src=max_src)
         yield from gens.merge_cases_multi_move('story', rng)
+        yield from gens.merge_cases_padded()
         n_hist = 150 if tier == 'quick' else 1500
         for state in history_states(rng, n_hist, 10):
             sids, _ = gens.state_ids(state)
